@@ -531,7 +531,7 @@ def stmts_coq(case, attr) -> str:
 
 
 def model_expr(case, attr) -> str:
-    """one Gallina term: [spec on order 1; engine-fold on order 1; engine-fold on order 2] for one viral attribute"""
+    """one Gallina term: [engine fold (= specification) on order 1; fold-before-the-fix on order 1; on order 2] for one attribute"""
     types = dict(case["attrs"])
     defs = coq_list([f"({coq_string(d['target'])}, {rule_coq(d['rule'], types.get(d['target'], d.get('typ', 'String')))})" for d in case["defs"]])
     nonnum = [a for a, t in case["attrs"] if t != "Integer"]
@@ -792,7 +792,7 @@ def _diff(a, b, n=4):
 
 def judge(case, eng: dict, models: Dict[str, list]) -> List[dict]:
     """Compares the engine's two runs with the model, per viral attribute.
-    models[attr] = [spec, impl on order 1, impl on order 2] (parsed Coq values).
+    models[attr] = [engine fold = specification, fold before the fix on order 1, on order 2] (parsed Coq values).
     Returns a list of findings {"key", "what", "attr", …}; empty = the case agrees with the specification."""
     types = dict(case["attrs"])
     if "harness_error" in eng:
@@ -846,14 +846,15 @@ def judge(case, eng: dict, models: Dict[str, list]) -> List[dict]:
             # the property predicate itself: two orders of the same input datapoints give different viral values
             explained = same_view(e1, i1) and same_view(e2, i2)
             out.append({"key": f"enum-fold-order:{site}", "attr": attr, "explained_by_impl": explained, "direct": True,
-                        "what": f"the result depends on the physical order of the input datapoints ({site}): list_reduce(list(col), …) folds an "
-                                f"enumerated rule in physical order" + ("" if explained else " [the left-fold model does not reproduce both runs]"),
+                        "what": f"the result depends on the physical order of the input datapoints ({site})"
+                                + (": the engine behaves like the fold BEFORE the fix (list_reduce(list(col)) without ORDER BY)" if explained
+                                   else " [not reproduced by the physical-order fold either]"),
                         "diff": _diff(e1[3], e2[3])})
             continue
         # the same result on both orders, different from the specification
         if same_view(e1, i1) and same_view(e2, i2):
             out.append({"key": f"enum-fold-order:{site}", "attr": attr, "explained_by_impl": True, "direct": False,
-                        "what": f"the engine's value is the left fold in physical order, not a function of the multiset of values ({site})",
+                        "what": f"the engine's value is the fold BEFORE the fix (physical order), not the sorted fold of the specification ({site})",
                         "diff": _diff(e1[3], spec[3])})
             continue
         if any(nested_op(t) for _, t in case["stmts"]):
